@@ -29,9 +29,17 @@ def check_text(out):
     if m:
         return ("internal-object-leak", f"{m.group(0)!r} in output near {out[max(0, m.start()-40):m.end()+20]!r}")
     try:
-        S.parse(out)
+        procs = S.parse(out)
     except S.B09SyntaxError as e:
         return ("b09-syntax-error", str(e))
+    # a line number labels one line of its procedure
+    for p in procs:
+        seen = set()
+        for st in S.walk(p.body):
+            if st.label is not None:
+                if st.label in seen:
+                    return ("b09-syntax-error", f"procedure {p.name}: line number {st.label} labels more than one line")
+                seen.add(st.label)
     return None
 
 
@@ -158,6 +166,11 @@ def run(run):
             keys.add(hash((c["text"], str(sorted(c["opts"].items())))))
             if i % 7001 == 1:
                 run.sample({"text": c["text"], "opts": c["opts"], "origin": c["origin"], "verdict": "well-formed" if not verdict else verdict[0]})
+            if verdict and "labels more than one line" in verdict[1]:
+                nums = re.findall(r"(?m)^\s*(\d+)", c["text"])
+                if len(nums) != len(set(nums)):
+                    run.count("outside-fragment:source-repeats-a-line-number")
+                    continue
             if verdict:
                 f = features(c)
                 if "source-for-next-unbalanced" in f and "NEXT" in verdict[1] or ("source-for-next-unbalanced" in f and "unmatched" in verdict[1]):
